@@ -189,8 +189,15 @@ def compared_operands(f, b, subst=None, depth=0):
             if b.is_cleanup(c.bb) or not c.is_static:
                 continue
             terms = K.arg_terms(c)
+            if c.name in _CMP_CALLS and re.match(r"^<(std|core)::cmp::Ordering as ", c.res or ""):
+                continue            # a test of a comparison's result (`a.cmp(&b) == Equal`), not a look at the values
             if c.name in _CMP_CALLS and 1 <= len(terms) <= 2:
                 parts = [texts(t) for t in terms[:2]]
+                sib = re.match(r"^<(\S+) as std::(?:cmp::\w+|hash::Hash)>::(\w+)$", c.res or "")
+                if sib and parts[0] == ["self"] and b.name.startswith("<%s as " % sib.group(1)) and (c.res or "") != b.name:
+                    # the whole value handed to another of the type's own Eq / Ord / Hash impls: it looks at what that looks at
+                    out.append(["@" + c.res])
+                    continue
                 if c.name == "hash":
                     out.extend([x] + (parts[1] if len(parts) > 1 else []) for x in parts[0])
                 elif len(parts) == 2 and len(parts[0]) == len(parts[1]):
@@ -239,6 +246,60 @@ def object_key(t):
     return None
 
 
+def site_fields(f, b, bd, bi, si, st):
+    """{field: α-normalised value} of the aggregate built at (bi, si) of `bd`, in the vocabulary of the function `b`:
+    `bd` is `b` itself, or a closure of `b` handed to `map` / `and_then` on a Result — by the contract of those
+    combinators the closure's parameter is the receiver's Ok payload, and its captures are the captured values."""
+    from engine import sym as symmod
+    if bd is b:
+        t = value_text(b, FlowSym(b), st["rv"], bi, si)
+        return {k: K.alpha(render(v), b) for k, v in t[3]} if t[0] == "agg" else {}
+    for c in b.calls():
+        if b.is_cleanup(c.bb) or not c.is_static or c.name not in ("map", "and_then"):
+            continue
+        terms = K.arg_terms(c)
+        cts = [x for t_ in terms[1:] for x in walk(strip_deep(t_)) if x[0] == "closure" and x[1] == bd.name]
+        if not cts or not terms:
+            continue
+        recv = render(peel_try(strip_deep(terms[0])))
+        cb, m = K.closure_env(f, cts[0], recv + "↓Ok.0")
+        if cb is None:
+            continue
+        t = value_text(bd, FlowSym(bd), st["rv"], bi, si)
+        if t[0] != "agg":
+            return {}
+        with symmod.substituting(m):
+            return {k: K.alpha(render(v), b) for k, v in t[3]}
+    return {}
+
+
+def expand_vars(t, sym, depth=0):
+    """The values a term may stand for when a multiply assigned local in it (`let x = match … { A => a?, B => b? }`) is
+    replaced by each of its definitions."""
+    t = strip_deep(t)
+    k = t[0]
+    if k == "var" and depth < 3:
+        out = [x for _, v in sym.defs_of_var(t[2]) for x in expand_vars(v, sym, depth + 1)]
+        return out or [t]
+    if k == "agg" and len(t[3]) == 1:
+        return [("agg", t[1], t[2], ((t[3][0][0], v),)) for v in expand_vars(t[3][0][1], sym, depth)]
+    if k == "field":
+        return [("field", x, t[2], t[3] if len(t) > 3 else None) for x in expand_vars(t[1], sym, depth)]
+    if k == "variant":
+        return [("variant", x, t[2]) for x in expand_vars(t[1], sym, depth)]
+    return [t]
+
+
+def rewrap(t):
+    """`Ok(x?)` is `x` (up to the identity conversion of the error) and `Some(x?)` is `x`."""
+    t = peel_try(strip_deep(t))
+    if t[0] == "agg" and str(t[2]) in ("Ok", "Some") and len(t[3]) == 1:
+        v = peel_try(strip_deep(t[3][0][1]))
+        if v[0] == "field" and str(v[2]) == "0" and v[1][0] == "variant" and str(v[1][2]) == str(t[2]):
+            return rewrap(v[1][1])
+    return t
+
+
 def value_text(body, fs, rv, bb, si):
     """α-normalised, `?`-peeled rendering of what the rvalue at (bb, si) evaluates to there."""
     return peel_try(strip_deep(fs.at(bb, si).rvalue(rv)))
@@ -269,6 +330,9 @@ def vdesc(v, it=None, depth=0):
             return repr(v.lin)
         return v.expr or "?"
     if k == "obj":
+        rng = absint.int_range(v.ty or "")
+        if v.path.startswith("!") and rng is not None and rng[0] == 0 and re.match(r"^![\w.%↓]+$", v.path):
+            return repr(absint.Lin({sym_alias(it, v.path[1:]): -1}, rng[1]))        # bitwise not of an unsigned integer
         return sym_alias(it, v.path)
     if k == "variant":
         fs = v.fields or {}
@@ -485,13 +549,11 @@ def run(ctx):
             # what the two fields hold at the construction site, whichever way the values got there (`?`, a match that
             # returns the error, a local assigned in both arms, a checking helper that hands its argument back):
             # parameters are numbered (%1 = the address, %2 = the length), `?` projections are looked through
-            fs = FlowSym(b)
-            mine = [x for x in sites if x[0] is b]
+            mine = [x for x in sites if root_fn(f, x[0].name) == fn]
             okf = bool(mine)
             detail = None
             for bd, bi, si, st in mine:
-                t = value_text(b, fs, st["rv"], bi, si)
-                flds = {k: K.alpha(render(v), b) for k, v in t[3]} if t[0] == "agg" else {}
+                flds = site_fields(f, b, bd, bi, si, st)
                 detail = flds
                 fl_ok = flds.get("family_and_len") == "FamilyAndLen::new_%s(%%2)↓Ok.0" % fam
                 if relaxed:
@@ -515,7 +577,8 @@ def run(ctx):
         if b is None:
             ctx.missing("R-FLOW", short(fn), fn)
             continue
-        vals = sorted(K.alpha(render(t), b) for _, _, t in success_values(b))
+        sy = K.sym_of(b)
+        vals = sorted({K.alpha(render(rewrap(x)), b) for _, _, t in success_values(b) for x in expand_vars(t, sy)})
         want = sorted(["Prefix::new_v4%s(%%1↓V4.0, %%2)" % suffix, "Prefix::new_v6%s(%%1↓V6.0, %%2)" % suffix])
         ctx.ob("R-FLOW", "%s:dispatch" % short(fn), vals == want, "%s delegates to the constructor of the address's family" % short(fn),
                where=b.loc, detail=vals)
@@ -603,6 +666,21 @@ def run(ctx):
             else:
                 vec_keys.add(None)
         vec_key = next(iter(vec_keys)) if len(vec_keys) == 1 else None
+        # … or a vector collected from an ordered set: a BTreeSet iterates in ascending order without duplicates
+        from_ordered_set = bool(b.return_blocks())
+        for rb in b.return_blocks():
+            rt = strip_deep(fs.at(rb, "term").local(0))
+            vt = strip_deep(rt[3][0][1]) if rt[0] == "agg" and rt[1] == S and len(rt[3]) == 1 else ("unknown",)
+            ordered = False
+            while vt[0] == "call" and (vt[3] or {}).get("name") in ("collect", "from_iter", "into_iter", "iter", "into", "from", "cloned", "copied") \
+                    and len(vt[2]) == 1:
+                ga = " ".join(str(x) for x in ((vt[3] or {}).get("ga") or ())) + " " + str((vt[3] or {}).get("res") or "")
+                if re.search(r"\bstd::collections::(BTreeSet<|btree_set::)", ga):
+                    ordered = True          # the vector is (collected from) the iteration of a BTreeSet
+                    break
+                vt = strip_deep(vt[2][0])
+            if not ordered:
+                from_ordered_set = False
         for what, rx in (("sort", r"^(sort|sort_unstable|sort_by|sort_unstable_by|sort_by_key)$"), ("dedup", r"^(dedup|dedup_by|dedup_by_key)$")):
             def sink(c, rx=rx):
                 if not re.match(rx, c.name or "") or not c.args:
@@ -611,13 +689,16 @@ def run(ctx):
             # from_iter returns the set itself: treat every return as success, calls are effects (always "checked")
             blocks = {c.bb for c in b.calls() if c.is_static and sink(c)}
             reach = b.reachable(0, removed_blocks=blocks)
-            ok = bool(blocks) and not [r for r in b.return_blocks() if r in reach]
+            ok = (bool(blocks) and not [r for r in b.return_blocks() if r in reach]) or from_ordered_set
             ctx.ob("R-CHK", "SmallAsnSet::from_iter→%s" % what, ok,
                    "FromIterator %ss the collected vector on every path before returning it" % what, where=b.loc)
         # order: dedup after sort
         sb = [c.bb for c in b.calls() if re.match(r"^sort", c.name or "")]
         db = [c.bb for c in b.calls() if re.match(r"^dedup", c.name or "")]
-        if sb and db:
+        if from_ordered_set:
+            ctx.ob("R-CHK", "SmallAsnSet::from_iter:dedup-after-sort", True,
+                   "the vector is collected from a BTreeSet (ascending, duplicate-free by std's contract)", where=b.loc)
+        elif sb and db:
             ctx.ob("R-CHK", "SmallAsnSet::from_iter:dedup-after-sort", all(d in b.reachable(s_) for s_ in sb for d in db) and
                    not any(s_ in b.reachable(d) for s_ in sb for d in db),
                    "duplicates are removed after sorting (dedup only removes adjacent equals)", where=b.loc)
@@ -630,6 +711,10 @@ def run(ctx):
     # ---- C13.c Eq / Ord / Hash projections ---------------------------------------------
     RO = "rtr::payload::RouteOrigin"
     projs = {}
+    impl_of = {}
+    for tr, meth in (("std::cmp::PartialEq", "eq"), ("std::cmp::Ord", "cmp"), ("std::hash::Hash", "hash")):
+        impl_of["<%s as %s>::%s" % (RO, tr, meth)] = meth
+    impl_of["<%s as std::cmp::PartialOrd>::partial_cmp" % RO] = "cmp"        # shown below to be Some(cmp)
     for tr, meth in (("std::cmp::PartialEq", "eq"), ("std::cmp::Ord", "cmp"), ("std::hash::Hash", "hash")):
         b = f.body("<%s as %s>::%s" % (RO, tr, meth))
         if b is None:
@@ -638,6 +723,9 @@ def run(ctx):
         ctx.saw_fn(b.name)
         got = set()
         for ops in compared_operands(f, b):
+            if len(ops) == 1 and ops[0].startswith("@"):
+                got.add("@" + impl_of.get(ops[0][1:], "?" + ops[0][1:]))
+                continue
             if meth == "hash":
                 ops = [a for a in ops if a != "%2"]          # the hasher itself
             sides, whose = set(), []
@@ -655,6 +743,11 @@ def run(ctx):
                 got.add("?compares %s" % " with ".join(sorted(ops)))
         projs[meth] = got
     want = {"MaxLenPrefix::prefix(self.prefix)", "MaxLenPrefix::resolved_max_len(self.prefix)", "self.asn"}
+    for _ in range(3):                      # an impl that hands the whole value to a sibling impl looks at what that one looks at
+        for meth, got in projs.items():
+            for g in [g for g in got if g.startswith("@") and g[1:] in projs and g[1:] != meth]:
+                got.discard(g)
+                got |= projs[g[1:]]
     for meth, got in projs.items():
         ctx.ob("R-SIB", "RouteOrigin::%s:projections" % meth, got == want,
                "RouteOrigin::%s looks at exactly prefix, effective max length and AS number" % meth, detail=sorted(got))
@@ -768,6 +861,11 @@ def order_value(t, leaf, facts=None):
                 return None if x is None else (x,)
         return None
     if k == "discr":
+        inner = strip_deep(t[1])
+        if inner[0] == "call" and (inner[3] or {}).get("name") == "branch" and ((inner[3] or {}).get("trait") or "").endswith("ops::Try") \
+                and len(inner[2]) == 1:
+            x = order_value(inner[2][0], leaf, facts)
+            return (0 if len(x) == 1 else 1) if isinstance(x, tuple) else None      # `?` on an Option: Continue iff Some
         x = order_value(t[1], leaf, facts)
         if isinstance(x, tuple):
             return len(x)               # None = 0, Some = 1
@@ -793,6 +891,8 @@ def order_value(t, leaf, facts=None):
                 return None if keep is None else (args[0] if keep else ())
         if any(a is None for a in args):
             return None
+        if name in ("copied", "cloned", "as_ref", "as_deref", "clone") and len(args) == 1:
+            return args[0]
         m2 = {"lt": "Lt", "le": "Le", "gt": "Gt", "ge": "Ge", "eq": "Eq", "ne": "Ne"}
         if name in m2 and len(args) == 2 and type(args[0]) is type(args[1]):
             return int(cmpf[m2[name]](args[0], args[1]))
@@ -829,7 +929,12 @@ def _const_of(op, env):
     return None
 
 
-def _flags_after(stmts, env):
+def cond_term(sym, d):
+    """The term a recorded branch tested: the discriminant operand, or the value a flag local was given on the path."""
+    return d if isinstance(d, tuple) else sym.operand(d)
+
+
+def _flags_after(stmts, env, sym=None):
     """Flags set on a path (`let ok = match … { … => true, … }` … `if ok`, what `matches!` and `&&` leave behind): the
     constants held by plain locals after the statements, given those held before."""
     for st in stmts:
@@ -838,6 +943,9 @@ def _flags_after(stmts, env):
             env.pop(st["rv"]["pl"]["l"], None)      # borrowed: may change behind our back
         if st["s"] == "assign" and not st["pl"]["p"]:
             v = _const_of(st["rv"]["op"], env) if st["rv"]["r"] == "use" else None
+            if v is None and sym is not None and st["pl"]["l"] in sym._multi and st["pl"]["l"] > sym.body.arg_count \
+                    and sym.body.local_ty(st["pl"]["l"]) == "bool":
+                v = ("t", sym.rvalue(st["rv"]))      # a flag computed on this path: a later branch on it tests this value
             if v is not None or st["pl"]["l"] in env:
                 env = dict(env)
                 env.pop(st["pl"]["l"], None)
@@ -849,7 +957,7 @@ def _flags_after(stmts, env):
     return env
 
 
-def iteration_paths(b, starts, stops, on_stmt=None, max_paths=4000):
+def iteration_paths(b, starts, stops, on_stmt=None, max_paths=4000, revisit_again=False, sym=None):
     """Acyclic paths of one loop iteration: from the blocks `starts` until a block of `stops` is entered again
     ("again"), the function returns ("return", block) or nothing follows.  -> [(kind, block, conds, notes, blocks)] with
     conds = [(discriminant operand, block, value taken | None, values not taken)] in path order; `on_stmt(bb, si, st,
@@ -862,6 +970,9 @@ def iteration_paths(b, starts, stops, on_stmt=None, max_paths=4000):
         if bb in stops:
             out.append(("again", bb, conds, notes, seen))
             continue
+        if bb in seen and revisit_again:
+            out.append(("again", bb, conds, notes, seen))
+            continue
         if bb in seen or b.is_cleanup(bb):
             continue
         seen = seen | {bb}
@@ -872,7 +983,7 @@ def iteration_paths(b, starts, stops, on_stmt=None, max_paths=4000):
             notes = list(notes)
             for si, st in enumerate(blk["stmts"]):
                 on_stmt(bb, si, st, notes, conds)
-        env = _flags_after(blk["stmts"], env)
+        env = _flags_after(blk["stmts"], env, sym)
         t = blk["term"]
         k = t["t"]
         if k == "return":
@@ -882,21 +993,27 @@ def iteration_paths(b, starts, stops, on_stmt=None, max_paths=4000):
         elif k == "call":
             if on_stmt is not None:
                 on_stmt(bb, "term", t, notes, conds)
-            if t["dest"]["l"] in env:
+            dl = t["dest"]["l"]
+            if dl in env or (sym is not None and not t["dest"]["p"] and dl in sym._multi and sym.body.local_ty(dl) == "bool"):
                 env = dict(env)
-                env.pop(t["dest"]["l"], None)
+                env.pop(dl, None)
+                if sym is not None and not t["dest"]["p"] and dl in sym._multi and sym.body.local_ty(dl) == "bool":
+                    env[dl] = ("t", sym.call(t, bb))
             if t.get("target") is not None:
                 stack.append((t["target"], conds, notes, seen, env))
         elif k == "switch":
             known = _const_of(t["discr"], env)
+            d = t["discr"]
+            if isinstance(known, tuple):
+                d, known = known[1], None
             if known is not None:
                 tgt = [tb for v, tb in t["targets"] if v == known]
                 stack.append((tgt[0] if tgt else t["otherwise"], conds, notes, seen, env))
                 continue
             listed = [v for v, _ in t["targets"]]
             for v, tb in t["targets"]:
-                stack.append((tb, conds + [(t["discr"], bb, v, [])], notes, seen, env))
-            stack.append((t["otherwise"], conds + [(t["discr"], bb, None, listed)], notes, seen, env))
+                stack.append((tb, conds + [(d, bb, v, [])], notes, seen, env))
+            stack.append((t["otherwise"], conds + [(d, bb, None, listed)], notes, seen, env))
     return out
 
 
@@ -932,13 +1049,13 @@ def closure_value(facts, ct, args, outer_leaf):
         elif st["s"] == "assign" and st["pl"]["l"] == 0 and not st["pl"]["p"]:
             notes.append(("ret", sy.rvalue(st["rv"])))
     got = set()
-    ips = iteration_paths(cb, [0], (), on_stmt)
+    ips = iteration_paths(cb, [0], (), on_stmt, sym=sy)
     if not ips:
         return None
     for kind, end, conds, notes, blocks in ips:
         feasible = True
         for d, _, v, nots in conds:
-            val = order_value(sy.operand(d), leaf, facts)
+            val = order_value(cond_term(sy, d), leaf, facts)
             if not isinstance(val, int):
                 return None
             if (v is not None and val != v) or (v is None and val in nots):
@@ -1011,7 +1128,7 @@ def check_provider_set_decoder(ctx, f):
                     notes.append(("clobber", len(conds)))
 
         starts = [b.blocks[r]["term"]["target"] for r in reads if b.blocks[r]["term"].get("target") is not None]
-        paths = iteration_paths(b, starts, reads, on_stmt)
+        paths = iteration_paths(b, starts, reads, on_stmt, sym=sym)
         reach = oc.success_reach()
         bad = []
         n_cont = 0
@@ -1021,7 +1138,7 @@ def check_provider_set_decoder(ctx, f):
             # an iteration without an element (the read said "no more"): not a step past an element
             def no_elem(c):
                 d, _, v, nots = c
-                t = strip_deep(peel_try(sym.operand(d)))
+                t = strip_deep(peel_try(cond_term(sym, d)))
                 return t[0] == "discr" and is_elem(("field", ("variant", t[1], "Some"), "0", None)) and (v == 0 or (v is None and 1 in nots))
             if any(no_elem(c) for c in conds):
                 continue
@@ -1042,7 +1159,7 @@ def check_provider_set_decoder(ctx, f):
                     feasible = True
                     uses_prev_after_update = False
                     for i, (d, bb_, v, nots) in enumerate(conds):
-                        term = sym.operand(d)
+                        term = cond_term(sym, d)
                         if upd and i >= min(upd) and any(prev_local(x) == P for x in walk(strip_deep(term))):
                             uses_prev_after_update = True
                         val = order_value(term, leaf, f)
@@ -1062,7 +1179,7 @@ def check_provider_set_decoder(ctx, f):
                         why = "compares after the previous element has been overwritten"
                     if why:
                         bad.append({"why": why, "previous": "Some" if some else "None", "ends": "%s bb%d" % (kind, end),
-                                    "tests": [render(strip_deep(sym.operand(d)))[:100] + "=%s" % (v if v is not None else "not %s" % nots) for d, _, v, nots in conds][-6:]})
+                                    "tests": [render(strip_deep(cond_term(sym, d)))[:100] + "=%s" % (v if v is not None else "not %s" % nots) for d, _, v, nots in conds][-6:]})
         ok = n_cont > 0 and not bad and paths is not None
         detail.update({"iteration paths that go on": n_cont, "counterexamples": bad[:3]})
     ctx.ob("R-GRD", "ProviderAsSet::take_from:strictly-ascending", found and ok,
@@ -1092,125 +1209,89 @@ MERGE_SPEC = {
 }
 
 
-def merge_step_table(b):
-    """{(L, R, order): set of actions} read off the CFG of a merge iterator's next()."""
+def merge_step_table(b, facts=None):
+    """{(L, R, order): set of actions} of a merge iterator's next(), decided per state.
+
+    The paths of one step (entry → return, or → a block entered a second time = the next round of its loop) are read
+    off the CFG with the tests they pass.  For each state of the specification — left head None/Some, right head
+    None/Some, and for two heads their relative order — every test is *evaluated* (order_value: comparison operators,
+    methods, three-way cmp in either operand order, tests of the options themselves, flags), so what matters is which
+    states a path serves, not how its tests are written.  A test that looks at anything but the two peeked heads is
+    reported."""
     s = K.sym_of(b)
-    table = {}
     problems = []
 
-    def finish(conds, events, end):
-        st = {"L": None, "R": None, "cmp": None}
-        for d, v in conds:
-            m = re.match(r"^discr\(Peekable::peek\(self\.(left|right)\)\)$", d)
-            if m:
-                side = "L" if m.group(1) == "left" else "R"
-                val = "N" if v == 0 else "S"
-                if st[side] not in (None, val):
-                    return          # infeasible: the same head seen as both None and Some
-                st[side] = val
-                continue
-            if re.match(r"^discr\(Ord::cmp\(Peekable::peek\(self\.left\)↓Some\.0, Peekable::peek\(self\.right\)↓Some\.0\)\)$", d):
-                st["cmp"] = {255: "<", 0: "=", 1: ">"}.get(v, "?")
-                continue
-            if re.match(r"^discr\(Ord::cmp\(Peekable::peek\(self\.right\)↓Some\.0, Peekable::peek\(self\.left\)↓Some\.0\)\)$", d):
-                st["cmp"] = {255: ">", 0: "=", 1: "<"}.get(v, "?")      # heads compared the other way round
-                continue
-            problems.append("branches on %s" % d[:120])
-        if st["cmp"] == "?":
-            problems.append("unnamed ordering arm")
-        nexts = [(side, ret) for nm, side, ret in events if nm == "next"]
-        names = {"self.left": "L", "self.right": "R"}
-        seq = [(names.get(sd, sd), r) for sd, r in nexts]
+    def side_of(t):
+        r = K.alpha(render(strip_deep(t)), b)
+        return {"self.left": "L", "self.right": "R"}.get(r, r)
+
+    def on_stmt(bb, si, st, notes, conds):
+        if si == "term":
+            k = st["func"].get("k") if isinstance(st["func"], dict) else None
+            name = (k or {}).get("name")
+            call_t = render(strip_deep(s.call(st, bb)))
+            if name in ("next", "next_back", "nth", "advance_by", "next_if", "next_if_eq") and st["args"]:
+                notes.append(("next", side_of(s.operand(st["args"][0])), call_t))
+            if st["dest"]["l"] == 0 and not st["dest"]["p"]:
+                notes.append(("ret", call_t))
+        elif st["s"] == "assign" and st["pl"]["l"] == 0 and not st["pl"]["p"]:
+            notes.append(("ret", render(strip_deep(s.rvalue(st["rv"])))))
+    paths = iteration_paths(b, [0], (), on_stmt, revisit_again=True, sym=s)
+    if paths is None:
+        return {}, ["too many paths"]
+
+    def action(notes, kind):
+        nexts = [(sd, txt) for k_, sd, txt in [n for n in notes if n[0] == "next"]]
+        rets = [n[1] for n in notes if n[0] == "ret"]
+        ret = rets[-1] if rets else None
+        seq = [(sd, "ret" if (kind == "return" and txt == ret) else "") for sd, txt in nexts]
+        end = "return" if kind == "return" else "continue"
         if not seq and end == "return":
-            act = "end"
-        elif len(seq) == 1 and seq[0][1] == "ret" and end == "return":
-            act = "yield " + seq[0][0]
-        elif len(seq) == 1 and seq[0][1] == "" and end == "continue":
-            act = "skip " + seq[0][0]
-        elif len(seq) == 2 and {x for x, _ in seq} == {"L", "R"} and seq[0][1] == "" and seq[1][1] == "ret" and end == "return":
-            act = "drop one, yield the other"
-        elif len(seq) == 2 and {x for x, _ in seq} == {"L", "R"} and all(r == "" for _, r in seq) and end == "continue":
-            act = "skip both"
-        else:
-            act = "other: %s %s" % (seq, end)
-        lr = [(st["L"],), (st["R"],)]
-        for L in ([st["L"]] if st["L"] else ["N", "S"]):
-            for R in ([st["R"]] if st["R"] else ["N", "S"]):
-                if st["cmp"] and (L, R) != ("S", "S"):
-                    continue
-                key = (L, R, st["cmp"] or "-")
-                if (L, R) == ("S", "S") and not st["cmp"]:
-                    for o in "<=>":
-                        table.setdefault((L, R, o), set()).add(act)
-                else:
-                    table.setdefault(key, set()).add(act)
+            return "end"
+        if len(seq) == 1 and seq[0][1] == "ret" and end == "return":
+            return "yield " + seq[0][0]
+        if len(seq) == 1 and seq[0][1] == "" and end == "continue":
+            return "skip " + seq[0][0]
+        if len(seq) == 2 and {x for x, _ in seq} == {"L", "R"} and seq[0][1] == "" and seq[1][1] == "ret" and end == "return":
+            return "drop one, yield the other"
+        if len(seq) == 2 and {x for x, _ in seq} == {"L", "R"} and all(r == "" for _, r in seq) and end == "continue":
+            return "skip both"
+        return "other: %s %s" % (seq, end)
 
-    def const_of(op, env):
-        """Value of an operand that is a literal, or a plain local holding one on the path walked so far."""
-        if "k" in op:
-            v = op["k"].get("v")
-            return int(v) if isinstance(v, (bool, int)) else None
-        pl = op.get("c") or op.get("m")
-        if pl is not None and not pl["p"]:
-            return env.get(pl["l"])
-        return None
+    table = {}
+    states = [(L, R, o) for L in "NS" for R in "NS" for o in (("<", "=", ">") if (L, R) == ("S", "S") else ("-",))]
+    for L, R, o in states:
+        lv, rv = {"<": (0, 1), "=": (1, 1), ">": (1, 0), "-": (1, 1)}[o]
 
-    def rec(bb, conds, events, seen, env):
-        if bb in seen:
-            return finish(conds, events, "continue")
-        seen = seen | {bb}
-        # flags set on this path (`let take_left = match … { … => true, … }` … `if take_left`): a later branch on
-        # such a local is decided by the value this path gave it
-        for st in b.blocks[bb]["stmts"]:
-            if st["s"] == "assign" and st["rv"]["r"] in ("ref", "rawptr") and st["rv"]["pl"]["l"] in env:
-                env = dict(env)
-                env.pop(st["rv"]["pl"]["l"], None)      # borrowed: may change behind our back
-            if st["s"] == "assign" and not st["pl"]["p"]:
-                v = const_of(st["rv"]["op"], env) if st["rv"]["r"] == "use" else None
-                if v is not None or st["pl"]["l"] in env:
-                    env = dict(env)
-                    env.pop(st["pl"]["l"], None)
-                    if v is not None:
-                        env[st["pl"]["l"]] = v
-            elif st["s"] in ("assign", "setdiscr") and st["pl"]["l"] in env:
-                env = dict(env)
-                env.pop(st["pl"]["l"], None)
-        t = b.blocks[bb]["term"]
-        k = t["t"]
-        if k == "return":
-            return finish(conds, events, "return")
-        if k in ("goto", "drop", "assert"):
-            return rec(t["target"], conds, events, seen, env)
-        if k == "call":
-            c = [c for c in b.calls() if c.bb == bb][0]
-            ev = events
-            if c.name in ("next", "next_back", "nth", "advance_by"):
-                ev = events + [(c.name, K.alpha(render(strip_deep(s.operand(c.args[0]))), b),
-                                "ret" if (t["dest"]["l"] == 0 and not t["dest"]["p"]) else "")]
-            if t["dest"]["l"] in env:
-                env = dict(env)
-                env.pop(t["dest"]["l"], None)
-            if t.get("target") is not None:
-                return rec(t["target"], conds, ev, seen, env)
-            return
-        if k == "switch":
-            known = const_of(t["discr"], env)
-            if known is not None:
-                tgt = [tb for v, tb in t["targets"] if v == known]
-                return rec(tgt[0] if tgt else t["otherwise"], conds, events, seen, env)
-            d = K.alpha(render(strip_deep(s.operand(t["discr"]))), b)
-            for v, tb in t["targets"]:
-                rec(tb, conds + [(d, v)], events, seen, env)
-            # the otherwise edge stands for the one value not listed
-            listed = {v for v, _ in t["targets"]}
-            ov = None
-            if "Ord::cmp" in d:
-                rest = [x for x in (255, 0, 1) if x not in listed]
-                ov = rest[0] if len(rest) == 1 else None
-            elif "peek" in d:
-                ov = 1 if 0 in listed else (0 if 1 in listed else None)
-            rec(t["otherwise"], conds + [(d, ov)], events, seen, env)
-    rec(0, [], [], frozenset(), {})
+        def leaf(t, L=L, R=R, lv=lv, rv=rv):
+            if t[0] == "call" and (t[3] or {}).get("name") in ("peek", "peek_mut") and len(t[2]) == 1:
+                sd = side_of(t[2][0])
+                if sd == "L":
+                    return (lv,) if L == "S" else ()
+                if sd == "R":
+                    return (rv,) if R == "S" else ()
+            return None
+        for kind, end, conds, notes, blocks in paths:
+            feasible = True
+            for d, bb_, v, nots in conds:
+                term = cond_term(s, d)
+                val = order_value(term, leaf, facts)
+                if not isinstance(val, int):
+                    # unreadable with both heads present: a test of something else (reported); unreadable only here: a
+                    # projection of a head this state does not have, so the path belongs to another state
+                    both = lambda t: leaf(t, "S", "S")
+                    if not isinstance(order_value(term, both, facts), int):
+                        txt = "branches on %s" % K.alpha(render(strip_deep(term)), b)[:120]
+                        if txt not in problems:
+                            problems.append(txt)
+                        continue
+                    feasible = False
+                    break
+                if (v is not None and val != v) or (v is None and val in nots):
+                    feasible = False
+                    break
+            if feasible:
+                table.setdefault((L, R, o), set()).add(action(notes, kind))
     return table, problems
 
 
@@ -1224,7 +1305,7 @@ def check_merge_iterators(ctx, f):
             continue
         n += 1
         ctx.saw_fn(name)
-        table, problems = merge_step_table(b)
+        table, problems = merge_step_table(b, f)
         got = {k: sorted(v) for k, v in table.items()}
         want = {k: [v] for k, v in spec.items()}
         diff = {"%s/%s/%s" % k: {"function": got.get(k), "specification": want.get(k)} for k in sorted(set(got) | set(want))
@@ -1249,10 +1330,21 @@ def check_covers_family(ctx, f):
         ps = OL.paths(b, s)
     except OL.NotComparisonOnly as e:
         return ctx.ob("R-GRD", "Prefix::covers:same-family", False, "Prefix::covers is loop-free: %s" % e, where=b.loc)
-    A, B = "Prefix::is_v4(self)", "Prefix::is_v4(%2)"
+    FAM = re.compile(r"^(?:Prefix|FamilyAndLen)::is_v([46])\((self|%2)(?:\.family_and_len)?\)$")
+
+    class FamEnv(dict):
+        """is_v4 / is_v6 of either prefix (through Prefix or its family-and-length field) under a choice of families."""
+        def get(self, key, default=None):
+            m = FAM.match(key or "")
+            if not m:
+                return default
+            return int((m.group(1) == "4") == bool(self[m.group(2)]))
+
+        def __contains__(self, key):
+            return FAM.match(key or "") is not None
     bad = []
     for va, vb in ((0, 1), (1, 0)):
-        env = {A: va, B: vb}
+        env = FamEnv({"self": va, "%2": vb})
         for conds, ret in ps:
             feasible = True
             for a, truth in conds:
@@ -1267,7 +1359,7 @@ def check_covers_family(ctx, f):
                 elif a[0] == "opaque":
                     k = K.alpha(a[1], b)
                     if k in env:
-                        v = bool(env[k])
+                        v = bool(env.get(k))
                 if v is None:
                     continue            # a test on something else: may go either way
                 if neg:
